@@ -600,6 +600,19 @@ impl<T: UciTx, H: Heuristic, M: MoveOrder> Search<T, H, M> {
     pub fn verif_has_quit(&self) -> bool {
         self.flags.quit_as_soon_as_possible
     }
+
+    /// Transposition-table entry stored under `zobrist_hash`:
+    /// (draft, value, 0 exact / 1 lower bound / 2 upper bound, value of the stored move).
+    pub fn verif_tt_entry(&self, zobrist_hash: ZobristHash) -> Option<(usize, i32, u8, i32)> {
+        self.state.transposition_table.get(zobrist_hash).map(|e| {
+            let node_type = match e.node_type {
+                Exact => 0,
+                Lowerbound => 1,
+                Upperbound => 2,
+            };
+            (e.depth, e.value, node_type, e.mv.value)
+        })
+    }
 }
 
 #[inline(always)]
